@@ -475,6 +475,28 @@ def extract_flags():
     flags["send_if_connected_ignores_pause"] = (len(ifs) == 1 and len(sends) == 1
                                                 and ast.unparse(ifs[0].test) == "self._connection"
                                                 and any(n is sends[0] for b in ifs[0].body for n in ast.walk(b)))
+    # C13: WHEN a subchannel id is allocated.  SubchannelConnectorEndpoint.connect reserves its id only after
+    # `yield …_main_channel.when_fired()` (so the role is known), and choose_role — not allocate_subchannel_id —
+    # seeds Manager._next_subchannel_id, in both role branches.
+    from wormhole._dilation import subchannel as dsub
+    fn = ast.parse(textwrap.dedent(inspect.getsource(dsub.SubchannelConnectorEndpoint.connect))).body[0]
+    pos_yield = pos_alloc = None
+    for i, st in enumerate(fn.body):
+        d = ast.dump(st)
+        if pos_yield is None and "Yield" in d and "when_fired" in d:
+            pos_yield = i
+        if pos_alloc is None and "allocate_subchannel_id" in d:
+            pos_alloc = i
+    flags["connect_allocates_after_main_channel"] = (pos_yield is not None and pos_alloc is not None
+                                                     and pos_yield < pos_alloc)
+
+    def _assigns(func, attr):
+        f = getattr(func, "method", func)
+        t = ast.parse(textwrap.dedent(inspect.getsource(f)))
+        return sum(1 for n in ast.walk(t) if isinstance(n, ast.Assign)
+                   and any(isinstance(x, ast.Attribute) and x.attr == attr for x in n.targets))
+    flags["choose_role_seeds_subchannel_id"] = (_assigns(vars(dm.Manager)["choose_role"], "_next_subchannel_id") == 2
+                                                and _assigns(vars(dm.Manager)["allocate_subchannel_id"], "_next_subchannel_id") == 0)
     return flags
 
 
